@@ -96,7 +96,18 @@ def rand_delta3(rng):
 
 
 SE2_OPS = ["construct", "compose", "compose", "ominus", "ominus", "inverse", "boxplus", "boxplus", "iadd", "copy", "matrix", "via_disk", "optimize_chain"]
-SE3_OPS = ["construct", "compose", "compose", "compose", "ominus", "ominus", "inverse", "boxplus", "boxplus", "iadd", "copy", "normalize", "via_disk", "optimize_chain"]
+SE3_OPS = ["construct", "compose", "compose", "compose", "ominus", "ominus", "inverse", "inverse", "boxplus", "boxplus", "iadd", "copy", "normalize", "via_disk",
+           "optimize_chain", "construct_nonunit", "normalize_inplace", "normalize_inplace"]
+
+
+def bmul(*bs, extra=0.0):
+    """Budget of a product of norms; None (no claim: some operand is not a unit quaternion) is contagious."""
+    out = 1.0 + extra
+    for b in bs:
+        if b is None:
+            return None
+        out *= 1.0 + b
+    return out - 1.0
 
 
 class C11(OptEngineBase):
@@ -128,7 +139,7 @@ class C11(OptEngineBase):
     PROBES = [
         "angle_eq_pi_returned", "angle_near_minus_pi", "big_angle", "boxplus_norm_gt1_branch", "boxplus_norm_eq1", "w_negative", "w_zero",
         "wild_step_applied", "chain_ge_1e4", "via_disk", "optimize_se2", "optimize_se3", "optimize_nonfinite_skipped", "normalize_checked",
-        "chain_ge_1000", "auto_renormalized",
+        "chain_ge_1000", "auto_renormalized", "nonunit_constructed", "normalize_inplace", "unclaimed_nonunit_operand",
     ]
 
     def sample_view(self, case):
@@ -164,7 +175,11 @@ class C11(OptEngineBase):
                 if rng.random() < 0.8 or (op == "optimize_chain" and heavy >= 40):
                     op = "compose"
             o = {"op": op, "t": t, "a": rng.randrange(POOL), "b": rng.randrange(POOL), "dst": rng.randrange(POOL)}
-            if op == "construct":
+            if op == "construct_nonunit":
+                q = rand_quat(rng)
+                sc = rng.choice([0.5, 1.7, 1.0 + 1e-6, 10.0, 1e-3])
+                o["v"] = fxl([rng.uniform(-10, 10) for _ in range(3)] + [x * sc for x in q])
+            elif op == "construct":
                 o["v"] = fxl([rng.uniform(-10, 10), rng.uniform(-10, 10), rand_angle(rng)] if t == "SE2" else [rng.uniform(-10, 10) for _ in range(3)] + rand_quat(rng))
             elif op in ("boxplus", "iadd"):
                 if t == "SE2":
@@ -258,6 +273,9 @@ class C11(OptEngineBase):
             def check3(i, r, beta, what, ref_norm=None, rel=0.0):
                 """beta: accumulated budget; ref_norm/rel: sharp single-operation check |norm/ref_norm - 1| <= rel."""
                 nonlocal checked3
+                if beta is None:
+                    res.probe("unclaimed_nonunit_operand")
+                    return True
                 checked3 += 1
                 res.n_checks += 1
                 n = qnorm(r)
@@ -322,7 +340,7 @@ class C11(OptEngineBase):
                                 d = [d[0], d[1], float(PoseSE2(d[:2], d[2])[2])]
                             else:
                                 r += np.array(d, dtype=np.float64)
-                            if not np.array_equal(keep, np.array(pool2[a])):
+                            if keep.tobytes() != np.array(pool2[a]).tobytes():
                                 V(i, "iadd-mutated-operand", "p += d changed the operand in place")
                                 break
                         tol = 8 * EPS * (abs(ta) + abs(d[2]) + 2 * math.pi)
@@ -380,11 +398,11 @@ class C11(OptEngineBase):
                         ok = check3(i, r, beta, "PoseSE3(unit q)")
                     elif kind in ("compose", "ominus"):
                         r = (pa + pb) if kind == "compose" else (pa - pb)
-                        beta = (1 + ba) * (1 + bb) * (1 + 8 * EPS) - 1
+                        beta = bmul(ba, bb, extra=8 * EPS)
                         ok = check3(i, r, beta, "p %s q" % ("+" if kind == "compose" else "-"), qnorm(pa) * qnorm(pb), 8 * EPS)
                     elif kind == "inverse":
                         r = pa.inverse
-                        beta = ba + 2 * EPS
+                        beta = bmul(ba, extra=2 * EPS)
                         ok = check3(i, r, beta, "p.inverse", qnorm(pa), 2 * EPS)
                     elif kind in ("boxplus", "iadd"):
                         d = np.array(xfl(op["d"]), dtype=np.float64)
@@ -399,18 +417,31 @@ class C11(OptEngineBase):
                             r = pa
                             keep = np.array(pa, copy=True)
                             r += d
-                            if not np.array_equal(keep, np.array(pool3[a])):
+                            if keep.tobytes() != np.array(pool3[a]).tobytes():
                                 V(i, "iadd-mutated-operand", "p += d changed the operand in place")
                                 break
-                        beta = (1 + ba) * (1 + 12 * EPS) - 1
+                        beta = bmul(ba, extra=12 * EPS)
                         ok = check3(i, r, beta, "p [+] d (|d_rot|=%r)" % rn, qnorm(pa), 12 * EPS)
                     elif kind == "copy":
                         r = pa.copy()
                         beta = ba
                         ok = check3(i, r, beta, "p.copy()", qnorm(pa), 2 * EPS)
-                    elif kind == "normalize":
-                        r = pa.copy()
+                    elif kind == "construct_nonunit":
+                        vals = xfl(op["v"])
+                        r = PoseSE3(vals[:3], vals[3:])
+                        beta = None  # not a unit quaternion: nothing is claimed until it is normalized
+                        ok = True
+                        res.probe("nonunit_constructed")
+                    elif kind in ("normalize", "normalize_inplace"):
+                        # in place on the pool object itself (whatever was computed from it before, e.g. its inverse,
+                        # must not be served stale afterwards) or on a copy
+                        r = pa if kind == "normalize_inplace" else pa.copy()
+                        if kind == "normalize_inplace":
+                            dst = a
+                            res.probe("normalize_inplace")
                         n0 = qnorm(r)
+                        if n0 == 0.0 or not math.isfinite(n0):
+                            continue
                         R0 = r.to_matrix()[:3, :3] / (n0 * n0)
                         r.normalize()
                         res.probe("normalize_checked")
@@ -431,15 +462,15 @@ class C11(OptEngineBase):
                         if r is None:
                             V(i, "via-disk", "pose did not survive the file round trip")
                             break
-                        beta = ba + 4 * EPS
+                        beta = 8 * EPS if op.get("as") == "measurement" else bmul(ba, extra=4 * EPS)
                         ok = check3(i, r, beta, "export/import as " + op.get("as", "vertex"))
                     elif kind == "optimize_chain":
-                        out = self._optimize_chain(w, i, op, pool3, "SE3", res, modes)
+                        out = self._optimize_chain(w, i, op, pool3, "SE3", res, modes, m3)
                         ok = True
                         if out is not None:
                             iters = op["iters"]
                             for slot, p, b0, n0 in out:
-                                beta = (1 + b0) * (1 + 12 * EPS * iters) - 1
+                                beta = bmul(b0, extra=12 * EPS * iters)
                                 if not check3(i, p, beta, "vertex after %d optimizer iterations" % iters, n0, 12 * EPS * iters):
                                     ok = False
                                     break
@@ -452,7 +483,12 @@ class C11(OptEngineBase):
                         raise ValueError(kind)
                     if not ok:
                         break
-                    if beta > 1e-9:
+                    if beta is None:
+                        # unclaimed (non-unit) results are only kept while they stay ordinary numbers
+                        nn = qnorm(r)
+                        if not (np.all(np.isfinite(np.array(r))) and 1e-100 < nn < 1e100):
+                            continue
+                    if beta is not None and beta > 1e-9:
                         # products multiply norms, so repeated self-composition doubles the deviation each time; once the
                         # budget gets loose, renormalise the stored pose the way a user would (deterministic, part of the history)
                         r = r.copy()
@@ -502,7 +538,7 @@ class C11(OptEngineBase):
             return vals[0].value if len(vals) == 1 else None
         return g2._edges[0].estimate if len(g2._edges) == 1 else None
 
-    def _optimize_chain(self, w, i, op, pool, t, res, modes):
+    def _optimize_chain(self, w, i, op, pool, t, res, modes, model=None):
         """A small graph around pool poses; run the optimizer; return [(slot, pose[, beta])] or None if not judged."""
         slots = op["slots"]
         verts = [Vertex(k, pool[s].copy()) for k, s in enumerate(slots)]
@@ -542,7 +578,7 @@ class C11(OptEngineBase):
             return None
         if t == "SE2":
             return [(s, v.pose) for s, v in zip(slots, g._vertices)]
-        return [(s, v.pose, 4 * EPS + abs(qnorm(pool[s]) - 1.0), qnorm(pool[s])) for s, v in zip(slots, g._vertices)]
+        return [(s, v.pose, None if model[s] is None else 4 * EPS + abs(qnorm(pool[s]) - 1.0), qnorm(pool[s])) for s, v in zip(slots, g._vertices)]
 
     def shrink_moves(self, case):
         return []
